@@ -1,6 +1,7 @@
 """Per-property configuration of bin/check: op classes, known findings, minimisation."""
 import json
 import os
+import binchecks
 import re
 import subprocess
 
@@ -144,6 +145,18 @@ TEXT_RULE = ("cases are generated from one xoshiro256** state seeded by VERIF_SE
              "non-trivial when its oracle is applicable (spec not n/a) and distinct by its full case line")
 
 PROPS = {
+    "C18": {
+        "binary": True,
+        "no_harness_gen": True,
+        "binary_cases": binchecks.c18_cases,
+        "rule": "the built binary (cargo build -p lsp4spl --features verif) is driven over stdio: every sequence over the 8-letter "
+                "alphabet {initialize, initialized, supported request, unknown request, didOpen, unknown notification, shutdown, exit} "
+                "up to length 4 (quick) / 5 (thorough) exhaustively plus random sequences up to length 12, each followed by end of input; "
+                "responses (id, ok/error code, order) and exit status are compared with the Lean model (RPC) and the specification "
+                "(SPECRPC); every (quick: every 5th) byte prefix of three sessions followed by EOF must terminate within 5 s. " + TEXT_RULE,
+        "unproved_parts": ["'promptly' (time to exit after end of input) and the flushing of buffered responses before process exit are "
+                           "runtime behaviour: observed on the binary (bounded latency, every response present), not a theorem"],
+    },
     "C08": {
         "rule": "texts over {ASCII, 2-/3-/4-byte chars, CR, LF, CRLF}; per text: 3x IDX/SPECIDX (get_insertion_index: impl vs model "
                 "vs independent line-table spec LspPos) at valid and overshooting positions, POS (as_position), PROPRT (index -> "
